@@ -259,7 +259,12 @@ def int_truediv(run, self, other):
         run.throw(ZeroDivisionError, "division by zero")
     if ca is not None and cb is not None:
         return VFloat(float, ca / cb)
-    raise Unsupported("symbolic int true division")
+    if run.branch(other.t == 0):
+        run.throw(ZeroDivisionError, "division by zero")
+    lim = 2 ** 1024
+    if run.feasible(z3.Or(self.t >= lim, self.t <= -lim, other.t >= lim, other.t <= -lim)):
+        raise Unsupported("true division of ints beyond the binary64 range")
+    return VFloat(float, z3.fpRealToFP(RNE, z3.ToReal(self.t) / z3.ToReal(other.t), FP))      # long_true_divide is correctly rounded
 
 
 @method(int, "__rtruediv__")
@@ -273,9 +278,7 @@ def _int_cmp(name, fn):
     def m(run, self, other):
         if isinstance(other, VInt):
             return mk_bool(run, fn(self.t, other.t))
-        if isinstance(other, VFloat):
-            raise Unsupported("int/float comparison")
-        return NOTIMPL
+        return NOTIMPL          # also for float: long_richcompare declines, float_richcompare (reflected) decides
     m.__name__ = name
     return m
 
@@ -516,7 +519,11 @@ METHODS[(float, "__rtruediv__")] = _float_binop("rtruediv", _fdiv, True)
 
 
 def _float_mod(run, a, b):
-    raise Unsupported("float modulo")
+    if run.branch(z3.fpIsZero(b)):
+        run.throw(ZeroDivisionError, "float modulo")
+    run.overapprox = True
+    run.note("float % float: the value is abstracted (any binary64), only the zero-divisor exception is modelled")
+    return VFloat(float, run.fresh("hv_fmod", FP))
 
 
 METHODS[(float, "__mod__")] = _float_binop("mod", _float_mod)
@@ -526,7 +533,29 @@ METHODS[(float, "__rfloordiv__")] = _float_binop("rfloordiv", _float_mod, True)
 
 
 def _float_cmp(name, fn):
+    """float <op> float: IEEE.  float <op> int: CPython compares EXACTLY (float_richcompare), never by rounding the int;
+    on its slow path (same sign negative, more than 48 bits, same number of integer bits) it negates the int with
+    PyNumber_Negative, i.e. it calls an int subclass's own __neg__, which may raise."""
     def m(run, self, other):
+        if isinstance(other, VInt):
+            v, w = self.t, other.t
+            hit = run.find_attr(other.cls, "__neg__")
+            if hit is not None and hit[0] is not int and hit[0] is not bool:
+                vr = z3.fpToReal(v)
+                same_bits = z3.Or([z3.And(z3.ToReal(-w) >= 2 ** (k - 1), z3.ToReal(-w) < 2 ** k, -vr >= 2 ** (k - 1), -vr < 2 ** k) for k in range(49, 66)])
+                finite = z3.Not(z3.Or(z3.fpIsNaN(v), z3.fpIsInf(v)))
+                if run.branch(z3.And(finite, z3.fpIsNegative(v), w < 0, same_bits)):
+                    run.call(run.bind_raw(hit[0], "__neg__", hit[1], other, other.cls), [])      # may raise (int64 minimum)
+                elif run.feasible(z3.And(finite, w <= -(2 ** 65))):
+                    raise Unsupported("float comparison with an int subclass beyond 65 bits")
+            wr = z3.ToReal(w)
+            vr = z3.fpToReal(v)
+            exact = {"eq": vr == wr, "ne": vr != wr, "lt": vr < wr, "le": vr <= wr, "gt": vr > wr, "ge": vr >= wr}[name]
+            pinf = z3.And(z3.fpIsInf(v), z3.fpIsPositive(v))
+            ninf = z3.And(z3.fpIsInf(v), z3.fpIsNegative(v))
+            at_pinf = name in ("ne", "gt", "ge")
+            at_ninf = name in ("ne", "lt", "le")
+            return mk_bool(run, z3.If(z3.fpIsNaN(v), z3.BoolVal(name == "ne"), z3.If(pinf, z3.BoolVal(at_pinf), z3.If(ninf, z3.BoolVal(at_ninf), exact))))
         o = _to_fp(run, other)
         if o is None:
             return NOTIMPL
@@ -695,7 +724,18 @@ def str_mul(run, self, other):
         if n > 10**6:
             run.throw(MemoryError)
         return VStr(str, _se().conc(VStr(str, self.t)) * n)
-    raise Unsupported("symbolic string repeat")
+    n = other.t
+    if run.branch(n <= 0):
+        return VStr(str, "")
+    if run.branch(n == 1):
+        return VStr(str, self.t)
+    if run.branch(n * z3.Length(self.t) > 2 ** 63 - 1):
+        run.throw(OverflowError, "repeated string is too long")
+    run.overapprox = True
+    run.note("str * n for n >= 2: the text is abstracted; allocation is assumed to succeed (no MemoryError)")
+    out = run.fresh("hv_repeat", z3.StringSort())
+    run.assume(z3.Length(out) == n * z3.Length(self.t))
+    return VStr(str, out)
 
 
 @method(str, "__len__")
@@ -1902,6 +1942,53 @@ def b_isnan(run, x):
 @callm(math.isinf)
 def b_isinf(run, x):
     return mk_bool(run, z3.fpIsInf(_to_fp(run, x)))
+
+
+# ====================================================================== None / bytes rich comparison, foreign operands
+_NoneType = type(None)
+for _n in ("__lt__", "__le__", "__gt__", "__ge__"):
+    METHODS[(_NoneType, _n)] = lambda run, self, other: NOTIMPL          # object's default
+METHODS[(_NoneType, "__eq__")] = lambda run, self, other: (mk_bool(run, True) if isinstance(other, VNone) else NOTIMPL)
+METHODS[(_NoneType, "__ne__")] = lambda run, self, other: (mk_bool(run, False) if isinstance(other, VNone) else NOTIMPL)
+
+
+def _bytes_cmp(name):
+    def m(run, self, other):
+        if not isinstance(other, VBytes):
+            return NOTIMPL
+        if name == "__eq__":
+            return mk_bool(run, self.t == other.t)
+        if name == "__ne__":
+            return mk_bool(run, self.t != other.t)
+        run.overapprox = True
+        run.note("bytes ordering: the outcome is abstracted to an arbitrary bool (lexicographic order is not encoded); it does not raise")
+        return mk_bool(run, run.fresh("hv_bytes_order", z3.BoolSort()))
+    return m
+
+
+for _n in ("__lt__", "__le__", "__gt__", "__ge__"):
+    METHODS[(bytes, _n)] = _bytes_cmp(_n)
+for _n in ("__eq__", "__ne__"):
+    METHODS.setdefault((bytes, _n), _bytes_cmp(_n))
+METHODS[(str, "__rmod__")] = lambda run, self, other: NOTIMPL if not isinstance(other, VStr) else (_ for _ in ()).throw(Unsupported("str % str formatting"))
+METHODS[(bytes, "__rmod__")] = lambda run, self, other: NOTIMPL if not isinstance(other, VBytes) else (_ for _ in ()).throw(Unsupported("bytes % bytes formatting"))
+
+
+@method(bytes, "__mul__", "__rmul__")
+def bytes_mul(run, self, other):
+    if not isinstance(other, VInt):
+        run.throw(TypeError, "can't multiply sequence by non-int")
+    n = other.t
+    if run.branch(n <= 0):
+        return VBytes(bytes, b"")
+    if run.branch(n == 1):
+        return VBytes(bytes, self.t)
+    if run.branch(n * z3.Length(self.t) > 2 ** 63 - 1):
+        run.throw(OverflowError, "repeated bytes are too long")
+    run.overapprox = True
+    out = run.fresh("hv_repeat", BYTES)
+    run.assume(z3.Length(out) == n * z3.Length(self.t))
+    return VBytes(bytes, out)
 
 
 # ====================================================================== datetime / timedelta (dependency: mostly opaque)
